@@ -557,8 +557,10 @@ struct Trace {
     readers: BTreeSet<u64>,
 }
 
-/// `gc_livings`: living sets returned by harness-supplied GC closures, in call order
-fn translate(log: &[OpRec], gc_livings: &[Vec<String>]) -> Trace {
+/// `gc_livings`: living sets returned by harness-supplied GC closures, in call order;
+/// `pub_marks`: publications observed from outside (no marker in the log): (log length at the
+/// observation, reader, call), sorted by position
+fn translate(log: &[OpRec], gc_livings: &[Vec<String>], pub_marks: &[(usize, u64, u64)]) -> Trace {
     let mut ids: HashMap<String, usize> = HashMap::new();
     let mut pid = |p: &str| -> usize {
         let n = ids.len() + 1;
@@ -577,7 +579,12 @@ fn translate(log: &[OpRec], gc_livings: &[Vec<String>]) -> Trace {
     let fmt_list = |v: &[usize]| -> String {
         if v.is_empty() { "-".to_string() } else { v.iter().map(|x| x.to_string()).collect::<Vec<_>>().join(",") }
     };
+    let mut next_mark = 0usize;
     for (i, r) in log.iter().enumerate() {
+        while next_mark < pub_marks.len() && pub_marks[next_mark].0 <= i {
+            ev.push(format!("p.{}.{}", pub_marks[next_mark].1, pub_marks[next_mark].2));
+            next_mark += 1;
+        }
         let rd = reader_of_thread(&r.thread);
         let is_lock = r.path == LOCK;
         match (rd, r.kind) {
@@ -666,6 +673,10 @@ fn translate(log: &[OpRec], gc_livings: &[Vec<String>]) -> Trace {
             }
             _ => {}
         }
+    }
+    while next_mark < pub_marks.len() {
+        ev.push(format!("p.{}.{}", pub_marks[next_mark].1, pub_marks[next_mark].2));
+        next_mark += 1;
     }
     Trace { events: ev, sessions, readers }
 }
@@ -883,11 +894,10 @@ impl<T> Tap for T {}
 // ------------------------------------------------------------------------------------------
 // (a)+(d) concurrent readers and writer, trace checked by the model
 // ------------------------------------------------------------------------------------------
-fn check_trace(ctx: &mut Ctx, what: &str, gdir: &GDir, gc_livings: &[Vec<String>], observed: &[((u64, u64), Obs)], w: &World, extra_events: &[String], case: &Value) -> (Trace, Vec<MetaRec>) {
+fn check_trace(ctx: &mut Ctx, what: &str, gdir: &GDir, gc_livings: &[Vec<String>], observed: &[((u64, u64), Obs)], w: &World, pub_marks: &[(usize, u64, u64)], case: &Value) -> (Trace, Vec<MetaRec>) {
     let log = gdir.log();
     let metas = metas_of(&log);
-    let mut tr = translate(&log, gc_livings);
-    tr.events.extend(extra_events.iter().cloned());
+    let tr = translate(&log, gc_livings, pub_marks);
     let v = ask_trace(ctx, "full", &tr);
     ctx.report.traces_validated_against_impl += 1;
     ctx.report.count_n("trace:events", tr.events.len() as u64);
@@ -914,7 +924,14 @@ fn check_trace(ctx: &mut Ctx, what: &str, gdir: &GDir, gc_livings: &[Vec<String>
                 let c = candidates(&metas, &obs.sig);
                 ctx.report.count("trace:publication-compared");
                 if !c.contains(&(*j as usize)) {
-                    ctx.report.violation("model", "C05:model-commit-differs", format!("{what}: reload {rk:?}: model says meta {j}, the searcher's segments are those of metas {c:?}"), case.clone());
+                    // watcher publications are matched to sessions by generation id, which is drawn
+                    // just after the lock is released: two sessions can swap there
+                    let other = rk.0 == 900 && v.loads.iter().any(|((r, _), jj)| *r == 900 && c.contains(&(*jj as usize)));
+                    if other {
+                        ctx.report.count("trace:watcher-generation-order-ambiguous");
+                    } else {
+                        ctx.report.violation("model", "C05:model-commit-differs", format!("{what}: reload {rk:?}: model says meta {j}, the searcher's segments are those of metas {c:?}"), case.clone());
+                    }
                 } else if let (Some(s), Some(d)) = (obs.check.as_ref(), metas.get(*j as usize).and_then(|m| w.by_opstamp.get(&m.opstamp))) {
                     if let Err(e) = matches_docs(s, w.f, d) {
                         ctx.report.violation("oracle", if e == "PANIC" { "C05:panic" } else { "C05:searcher-docs-differ-from-commit" }, format!("{what}: reload {rk:?} (meta {j}): {e}"), case.clone());
@@ -1401,6 +1418,148 @@ fn scenario_overlap(ctx: &mut Ctx, seed: u64) {
     }
 }
 
+// ------------------------------------------------------------------------------------------
+// (d) OnCommitWithDelay: the reader is reloaded by watcher threads (RamDirectory: one fresh
+// thread per meta.json write), optionally raced by manual reloads
+// ------------------------------------------------------------------------------------------
+fn scenario_oncommit(ctx: &mut Ctx, seed: u64, free_running: bool) {
+    let mut rng = Rng::new(seed);
+    let case = json!({"scenario": "oncommit", "seed": seed, "free_running": free_running});
+    let gdir = GDir::new();
+    let mut w = World::create(Box::new(gdir.clone()));
+    w.add(&mut rng, 3);
+    w.commit();
+    let second = rng.chance(1, 2);
+    let ridx = if second { Index::open(gdir.clone()).unwrap() } else { w.index.clone() };
+    let reader: IndexReader = match on_thread("c05-rd-900-init", move || { let r: tantivy::Result<IndexReader> = ridx.reader_builder().reload_policy(ReloadPolicy::OnCommitWithDelay).try_into(); r }) {
+        Ok(Ok(r)) => r,
+        _ => return,
+    };
+    let stop = Arc::new(AtomicBool::new(false));
+    // poller: every distinct publication it sees, with the log length at that moment
+    let poll = {
+        let rd = reader.clone();
+        let g = gdir.clone();
+        let stop = stop.clone();
+        std::thread::Builder::new().name("c05-poll".into()).spawn(move || {
+            let mut out: Vec<(usize, u64, Searcher)> = vec![];
+            let mut last: Option<u64> = None;
+            loop {
+                let s = rd.searcher();
+                let pos = g.log_len();
+                let gen = s.generation().generation_id();
+                if last != Some(gen) {
+                    last = Some(gen);
+                    out.push((pos, gen, s));
+                }
+                if stop.load(Ordering::SeqCst) {
+                    break;
+                }
+                std::thread::sleep(Duration::from_micros(100));
+            }
+            out
+        }).unwrap()
+    };
+    // optional manual reloads racing the watcher threads
+    let manual = if free_running && rng.chance(2, 3) {
+        let rd = reader.clone();
+        let stop = stop.clone();
+        Some(std::thread::Builder::new().name("c05-rd-900-m".into()).spawn(move || {
+            let mut n = 0u64;
+            while !stop.load(Ordering::SeqCst) && n < 40 {
+                let _ = catch_unwind(AssertUnwindSafe(|| rd.reload()));
+                n += 1;
+                std::thread::sleep(Duration::from_micros(700));
+            }
+            n
+        }).unwrap())
+    } else {
+        None
+    };
+    let nops = 8 + rng.usize_below(8);
+    let mut no_catchup = 0;
+    for _ in 0..nops {
+        let metas_before = metas_of(&gdir.log()).len();
+        let gen_before = reader.searcher().generation().generation_id();
+        let op = if free_running {
+            w.random_op(&mut rng)
+        } else {
+            // one meta.json write per operation at most
+            match rng.below(6) {
+                0..=2 => { let n_ = 1 + rng.usize_below(4); w.add(&mut rng, n_); w.commit(); "add+commit" }
+                3 => { w.delete_some(&mut rng, 1); w.commit(); "delete+commit" }
+                4 => { w.merge_all(); "merge" }
+                _ => { w.add(&mut rng, 2); w.rollback(); "add+rollback" }
+            }
+        };
+        ctx.report.count(&format!("oncommit-op:{op}"));
+        if !free_running {
+            let m = (metas_of(&gdir.log()).len() - metas_before) as u64;
+            let deadline = Instant::now() + Duration::from_secs(5);
+            while reader.searcher().generation().generation_id() < gen_before + m && Instant::now() < deadline {
+                std::thread::sleep(Duration::from_micros(200));
+            }
+            if reader.searcher().generation().generation_id() < gen_before + m {
+                no_catchup += 1;
+            }
+            // let the poller see it before the next operation starts
+            std::thread::sleep(Duration::from_micros(400));
+        }
+    }
+    // quiesce: wait until the watcher threads have gone silent
+    let mut quiet_since = Instant::now();
+    let mut last_len = gdir.log_len();
+    let deadline = Instant::now() + Duration::from_secs(5);
+    while Instant::now() < deadline && quiet_since.elapsed() < Duration::from_millis(150) {
+        std::thread::sleep(Duration::from_millis(10));
+        let l = gdir.log_len();
+        if l != last_len {
+            last_len = l;
+            quiet_since = Instant::now();
+        }
+    }
+    stop.store(true, Ordering::SeqCst);
+    let manual_reloads = manual.map(|h| h.join().unwrap_or(0)).unwrap_or(0);
+    ctx.report.count_n("oncommit:manual-reloads-racing", manual_reloads);
+    let seen = match poll.join() {
+        Ok(v) => v,
+        Err(_) => return,
+    };
+    if no_catchup > 0 {
+        ctx.report.count_n("oncommit:no-catchup-within-5s", no_catchup);
+        ctx.report.violation("oracle", "C05:oncommit-reader-did-not-follow", format!("OnCommitWithDelay reader did not publish a new searcher within 5 s after {no_catchup} meta.json writes"), case.clone());
+    }
+    // generation ids are drawn right after open_segment_readers returns: generation g is the
+    // g-th reload session of this reader (session 0 = creation)
+    let mut marks: Vec<(usize, u64, u64)> = vec![];
+    let mut observed: Vec<((u64, u64), Obs)> = vec![];
+    let mut per: Vec<Obs> = vec![];
+    for (pos, gen, s) in &seen {
+        marks.push((*pos, 900, *gen));
+        let o = Obs { ok: true, err: String::new(), sig: sig_of(s), check: Some(s.clone()) };
+        observed.push(((900, *gen), o.clone()));
+        per.push(o);
+        ctx.report.case(&format!("oncommit|{seed}|{gen}|{:?}", sig_of(s)), true);
+    }
+    ctx.report.count_n("oncommit:publications-observed", seen.len() as u64);
+    let (tr, metas) = check_trace(ctx, if free_running { "oncommit-free" } else { "oncommit-sequential" }, &gdir, &[], &observed, &w, &marks, &case);
+    let mut per_reader = BTreeMap::new();
+    per_reader.insert(900u64, per);
+    check_monotone(ctx, if free_running { "oncommit-free" } else { "oncommit-sequential" }, &tr, &metas, &per_reader, &case);
+    // at rest the reader serves the newest commit (unless an overlap left it behind: S5)
+    let fin = reader.searcher();
+    if !candidates(&metas, &sig_of(&fin)).contains(&(metas.len() - 1)) {
+        let (seqok, _, raw) = ask_seq(ctx, 900, &tr);
+        if seqok {
+            ctx.report.violation("oracle", "C05:oncommit-final-not-newest", format!("at rest the OnCommitWithDelay reader serves metas {:?}, newest is {} (model: {raw})", candidates(&metas, &sig_of(&fin)), metas.len() - 1), case.clone());
+        } else {
+            ctx.report.violation("oracle", "C05:overlapping-reloads-publish-out-of-order", format!("at rest the OnCommitWithDelay reader serves metas {:?}, newest is {}; its reloads overlapped (model: {raw})", candidates(&metas, &sig_of(&fin)), metas.len() - 1), case.clone());
+        }
+    } else {
+        ctx.report.count("oncommit:final-is-newest");
+    }
+}
+
 pub fn replay(ctx: &mut Ctx, case: &Value) {
     let seed = case["seed"].as_u64().unwrap_or(1);
     match case["scenario"].as_str().unwrap_or("") {
@@ -1408,6 +1567,7 @@ pub fn replay(ctx: &mut Ctx, case: &Value) {
         "concurrent" => scenario_concurrent(ctx, seed, case["reloads"].as_u64().unwrap_or(10) as usize),
         "windows" => scenario_windows(ctx, seed, case["windows"].as_u64().unwrap_or(8) as usize),
         "overlap" => scenario_overlap(ctx, seed),
+        "oncommit" => scenario_oncommit(ctx, seed, case["free_running"].as_bool().unwrap_or(false)),
         other => ctx.report.notes.push(format!("unknown replay scenario {other}")),
     }
 }
@@ -1447,6 +1607,11 @@ pub fn run(ctx: &mut Ctx) {
         let seed = ctx.rng.next_u64();
         let k = ctx.budget(10, 20) as usize;
         scenario_windows(ctx, seed, k);
+    }
+    let n_oc = ctx.budget(10, 100);
+    for i in 0..n_oc {
+        let seed = ctx.rng.next_u64();
+        scenario_oncommit(ctx, seed, i % 2 == 1);
     }
     let n_ov = ctx.budget(6, 60);
     for _ in 0..n_ov {
